@@ -281,5 +281,6 @@ def run_session(sess: Dict[str, Any], world_dir: str, emit: Callable[[Dict[str, 
     gc.collect()
     os.environ.clear()
     os.environ.update(base_environ)
+    env.stats["clock_s"] = round(env._clock_now - env._clock_start, 4)
     emit({"ev": "session_end", "killed": False, "stats": env.stats})
     return 0
